@@ -229,10 +229,12 @@ Definition from_str_chk_with (bound top : nat) (s : bytes) : chk (option datetim
     | Panic x => Panic x
     end.
 
-(* the bound and the exponent the source has; to be replaced by the generated constants
-   Gen.Consts.SD_FRAC_DIGITS / SD_FRAC_TOP_EXP (lib/gen_consts.py) — the ONLY two lines to change *)
-Definition FRAC_DIGITS : nat := 9.
-Definition FRAC_TOP_EXP : nat := 8.
+(* the bound and the exponent the source has (`if i < 9`, `10_u32.pow(8 - i as u32)`).  lib/gen_consts.py
+   checks these two literals today (ConstsError if they change); once it EMITS them, bind the two names
+   to Gen.Consts.SD_FRAC_DIGITS / SD_FRAC_TOP_EXP — these are the only two lines to change, the proofs
+   compute their side conditions from whatever these names unfold to. *)
+Definition FRAC_DIGITS : nat := SD_FRAC_DIGITS.
+Definition FRAC_TOP_EXP : nat := SD_FRAC_TOP_EXP.
 
 Definition from_str_chk : bytes -> chk (option datetime) := from_str_chk_with FRAC_DIGITS FRAC_TOP_EXP.
 
